@@ -243,8 +243,8 @@ func runIsolated(c *Check, f *Family, tier string, res *result, deadline time.Ti
 						mu.Unlock()
 						return
 					}
-					if confirmHang(c, f, tier, idx, 3*hangAfter) {
-						res.addFailure(hangFailure(c, f, idx, 3*hangAfter))
+					if fl := stallFailure(c, f, tier, idx, 3*hangAfter); fl != nil {
+						res.addFailure(*fl)
 					}
 					mu.Lock()
 					st.Done += (idx-from)/W + 1
